@@ -3,6 +3,7 @@ meaning-preserving rewrites of the document (harness/xmlrewrite.py), for both ha
 
 Oracle on the real code; theorems over Model/Parser.v in Properties/C09.v (when built)."""
 import concurrent.futures as cf
+import json
 import os
 
 import common
@@ -12,6 +13,7 @@ import genmodels as G
 
 IMPORTS = ("From XV Require Import Base.Str Model.Bind Model.Parser Model.ParserCorr Model.Reader Model.ReaderCorr "
            "Model.ParserInvCorr Proofs.ParserInvWs Proofs.ParserInvAttrs Proofs.ParserCtx Proofs.ParserCtxGuard.")
+FAMILIES = ["f3", "ws", "attrs", "redecl", "rename", "rename_qname", "list_ws", "xinclude"]
 GUARD_DEFS = """
 Definition ws_guard (x : c09_case) : bool :=
   let '(cfg, t, u, root, e1, e2, _, _) := x in
@@ -37,7 +39,9 @@ Definition obs_same_dict (x : c09_case) : bool :=
 def guard_jobs(ck):
     r = ck.rng
     jobs = [{"id": 0, "seed": r.randrange(1 << 30), "model": {"c08": "any_attrs"}},
-            {"id": 1, "seed": r.randrange(1 << 30), "model": {"c08": "scoped_qname"}, "n": ck.n(16, 150)}]
+            {"id": 1, "seed": r.randrange(1 << 30), "model": {"c08": "scoped_qname"}, "n": ck.n(16, 150)},
+            {"id": 2, "seed": r.randrange(1 << 30), "model": {"list_ws": True}, "n": ck.n(10, 100)},
+            {"id": 3, "seed": r.randrange(1 << 30), "model": {"xinclude": True}, "n": ck.n(8, 60)}]
     for _ in range(ck.n(30, 300)):
         k = r.random()
         sl = ["F1"] if k < 0.35 else (["F1", "F2"] if k < 0.6 else ["F1", "F2", "F3"])
@@ -77,6 +81,14 @@ def guard_check(ck, fut):
             ck.failure("harness-driver-crashed", f"impl_c09.py crashed on {j['model']} seed {j['seed']}: {j['crashed'][-400:]}",
                        {"job": {"seed": j["seed"], "model": j["model"]}})
             continue
+        for x in j.get("xinclude", []):
+            st = stats["by_kind"].setdefault("xinclude", {"pairs": 0, "repeated_href": 0, "outcomes_differ": 0})
+            st["pairs"] += 1
+            st["repeated_href"] += bool(x.get("repeated_href"))
+            if x.get("why"):
+                st["outcomes_differ"] += 1
+                ck.failure(f"rewrite-xinclude-{x['handler']}", f"document split with XInclude ({x['handler']} handler, {x['source']}): {x['why']}; "
+                                                              f"{x['doc'][:300]!r}, expected {x['expected']}", {"job": {"seed": j["seed"]}, "case": x})
         if j.get("skipped") or not j.get("universe") or not j.get("conv"):
             continue
         gterms = []
@@ -112,6 +124,11 @@ def guard_check(ck, fut):
                 ck.failure(cls, f"renaming / dropping a namespace prefix changes the parsed object: {c['doc']!r} vs {c['doc2']!r}: "
                                 f"{c['summary']['a']['value']} vs {c['summary']['b']['value']}", rp)
             continue
+        if kind == "list_ws":
+            if not same:
+                ck.failure("rewrite-list_ws", f"other whitespace between the items of list values changes the parsed object: {c['doc'][:300]!r} vs "
+                                              f"{c['doc2'][:300]!r}: {c['summary']}", rp)
+            continue
         if kind == "rename_qname":
             # QName-typed content re-spelled with the renamed prefixes: no event-level theorem (C09_qname_respelling_partial); oracle
             if not same:
@@ -128,6 +145,12 @@ def guard_check(ck, fut):
             ck.failure(f"guard-false-on-{kind}-rewrite", f"the hypothesis of the ({kind}) theorem does not hold on a rewrite the oracle applies: "
                                                          f"{c['doc'][:200]!r} vs {c['doc2'][:200]!r}", rp)
     stats["pairs"] = len(terms)
+    # a family of the generator that produced no judged case is a broken check, not a pass
+    for fam in FAMILIES:
+        if stats["by_kind"].get(fam, {}).get("pairs", 0) == 0:
+            ck.broken_obligation(f"guard-check: family {fam} produced no judged case", json.dumps(stats)[:2000])
+    if stats["by_kind"].get("xinclude", {}).get("repeated_href", 0) == 0:
+        ck.broken_obligation("guard-check: no XInclude document includes one file twice", json.dumps(stats)[:2000])
     return stats
 
 NOQ = [p for p in G.PRIMS if p != "QName"]
@@ -194,7 +217,7 @@ def run(ck: Check):
     except common.BuildError as e:
         ck.broken_obligation("guard-check:" + e.target, e.log)
         gstats = {"pairs": 0}
-    ck.cov["evaluations"] = n + gstats["pairs"]
+    ck.cov["evaluations"] = n + gstats["pairs"] + gstats.get("by_kind", {}).get("xinclude", {}).get("pairs", 0)
     ck.cov["distinct_nontrivial"] = n + gstats["pairs"]
     ck.cov["rule"] = ("oracle: one evaluation = (model, instance, composition of rewrite kinds, handler); guard check: one evaluation = "
                       "(model, document, rewritten document): both recorded event streams, the theorem hypothesis computed in Coq, the "
